@@ -241,13 +241,21 @@ def _ground_numeric_path(name):
         pv = vs[:npar]
         M = np.array(obj(*pv).matrix.evalf(), dtype=complex)
         W = np.array(Msym.subs(dict(zip(th, pv))).evalf(), dtype=complex)
+        dim = 2 ** obj(*pv).num_qubits
+        if M.shape != (dim, dim) or M.shape != W.shape:
+            bad.append(("numeric-vs-symbolic", pv, float(max(M.shape + W.shape))))
+            continue
         if np.abs(M - W).max() > 1e-9:
             bad.append(("numeric-vs-symbolic", pv, float(np.abs(M - W).max())))
         if np.abs(M.conj().T @ M - np.eye(M.shape[0])).max() > 1e-9:
             bad.append(("unitary-numeric", pv, 0.0))
         if name in GROUP_GATES:
             a, b = vs[0], vs[1]
-            d = np.array(obj(b).matrix.evalf(), dtype=complex) @ np.array(obj(a).matrix.evalf(), dtype=complex) - np.array(obj(a + b).matrix.evalf(), dtype=complex)
+            Ma, Mb, Mab = (np.array(obj(x).matrix.evalf(), dtype=complex) for x in (a, b, a + b))
+            if not (Ma.shape == Mb.shape == Mab.shape == M.shape):
+                bad.append(("group-law-numeric", [a, b], 0.0))
+                continue
+            d = Mb @ Ma - Mab
             if np.abs(d).max() > 1e-9:
                 bad.append(("group-law-numeric", [a, b], float(np.abs(d).max())))
     return bad
